@@ -30,7 +30,8 @@ package gopacket
 func LayersDecoder(dl DecodingLayerContainer, first LayerType, df DecodeFeedback) DecodingLayerFunc {
   firstDec, ok := dl.Decoder(first)
   if !ok {
-    return func([]byte, *[]LayerType) (LayerType, error) {
+    return func(_ []byte, decoded *[]LayerType) (LayerType, error) {
+      *decoded = (*decoded)[:0] // Truncated decoded layers.
       return first, nil
     }
   }
